@@ -12,6 +12,12 @@ spec -> code
   map(s) from `from` with every public constructor, makes the real call, and compares
   the real result with the spec's value (representation gap_pos/cum_gap_lengths/
   parent_length/len, then every observation of Describe(to)).
+constructors x containers
+  Build actions of both specs name the constructor and the container its argument comes in (list,
+  tuple, generator, iter(list), another map's `.spans` generator passed straight through, numpy
+  array, list of lists, dict with numpy keys, int32 / int64 / gap_lengths arrays): the spec builds
+  the same map for all of them, the harness builds the real object each way and reads it back in
+  full (entries, parent_length, len, num_spans, get_coordinates / every Describe observation).
 histories on one object
   IndelMap.tla separates the receiver g from the returned map `out`; a call leaves g unchanged
   (ReadOnlyOpsPreserveReceiver), Adopt continues the history on the returned, derived map.  The
@@ -192,6 +198,28 @@ def indel_one(rec, ctors, fails, stats, samples):
     desc, bad = _G["desc"], _G["bad"]
     act, args = rec["act"], rec["args"]
     f, t = tuple(rec["from"]), tuple(rec["to"])
+    if act == "Build":
+        # constructor x container of its argument: the map built is Describe(g) for all of them
+        ctor, container = args
+        stats["executions"] += 1
+        stats["records"] += 1
+        stats["act:Build"] += 1
+        key = f"IndelMap:Build:ctor={ctor}:container={container}:{M.layout(f)}"
+        base = {"spec": "IndelMap", "string": M.gapped_text(f), "bits": list(f), "constructor": ctor, "container": container}
+        try:
+            m = M.build_indelmap_container(list(f), ctor, container, desc[f])
+            obs = M.im_observe(m)
+        except Exception as ex:
+            fails.add(f"{key}:exception={type(ex).__name__}", {**base, "exception": repr(ex), "traceback": traceback.format_exc()[-1200:]})
+            return
+        exp = _expected(f)
+        df = M.diff_fields(obs, exp)
+        if any(k in M.REPR_FIELDS for k in df):
+            fails.add(f"{key}:repr", {**base, "expected": {k: exp[k] for k in df}, "observed": {k: obs.get(k) for k in df}})
+        else:
+            for k in df:
+                fails.add(f"{key}:observe({k})", {**base, "expected": {k: exp[k]}, "observed": {k: obs.get(k)}})
+        return
     operand = tuple(args[0]) if act in ("Concat", "Merge", "Minus", "Shared") else None
     nstyles = M.IM_STYLES.get(act, 1)
     if act == "Slice" and not (args[0] == 0 or args[1] == len(f)):
@@ -469,6 +497,7 @@ def history_one(gkey, fails, stats, samples):
     g = tuple(json.loads(gkey))
     rnd = random.Random(f"{_G['seed']}:{gkey}")
     ops = [parse(lines[i]) for i in _G["by_from"].get(gkey, ())]
+    ops = [r for r in ops if r["act"] != "Build"]  # constructors are not calls on the receiver
     if not ops:
         return
     exp_g = _expected(g)
@@ -579,7 +608,7 @@ def history_phase(run: Run):
                 lst.append(i)
     keys = sorted(by_from)
     random.Random(run.seed).shuffle(keys)
-    _G.update(by_from=by_from, by_to=by_to, hist_keys=keys, seed=run.seed, hist_cap=150 if run.tier == "quick" else 200)
+    _G.update(by_from=by_from, by_to=by_to, hist_keys=keys, seed=run.seed, hist_cap=100 if run.tier == "quick" else 200)
     total, allfails = Counter(), Fails()
     for fails, stats, samples in run_pool(_history_job, len(keys), 4, "IndelMap:History"):
         total.update(stats)
@@ -604,7 +633,43 @@ def history_phase(run: Run):
 
 
 # =================================================================== FeatureMap
+def fm_build(mdef, args, allowed, fails, stats):
+    """Build action: the spans / locations handed to the constructor in the given container."""
+    container = args[0]
+    stats["executions"] += 1
+    stats["records"] += 1
+    stats["act:Build"] += 1
+    if mdef["spans"]:
+        stats["nontrivial"] += 1
+    key = f"FeatureMap:Build:container={container}:{M.fm_class(mdef, 'Build', args)}"
+    base = {"spec": "FeatureMap", "from": mdef, "act": "Build", "container": container, "allowed": allowed}
+    try:
+        m = M.build_featuremap_container(mdef, container)
+        val, outside = M.fm_project(m, "Build")
+        extra = {"num_spans": int(m.num_spans), "spans_listed": len(list(m.spans)), "coords": [[int(a), int(b)] for a, b in m.get_coordinates()], "useful": bool(m.useful)}
+    except M.AbsurdLength as ex:
+        fails.add(f"{key}:result-absurd-length", {**base, "exception": repr(ex)})
+        return
+    except Exception as ex:
+        fails.add(f"{key}:exception={type(ex).__name__}", {**base, "exception": repr(ex), "traceback": traceback.format_exc()[-1200:]})
+        return
+    want = [a for a in allowed if a["kind"] == "val"]
+    diff = [k for k in ("ents", "plen") if all(val[k] != a[k] for a in want)]
+    if outside:
+        diff.append(outside)
+    # the same map read through its other accessors
+    nonlost = [[s, e] for s, e, _ in mdef["spans"] if s != M.LOST]
+    if extra["num_spans"] != len(mdef["spans"]) or extra["spans_listed"] != len(mdef["spans"]):
+        diff.append("num_spans")
+    if extra["coords"] != nonlost:
+        diff.append("coords")
+    if diff:
+        fails.add(f"{key}:" + ",".join(diff), {**base, "observed": val, **extra})
+
+
 def fm_execute(mdef, act, args, allowed, fails, stats, samples):
+    if act == "Build":
+        return fm_build(mdef, args, allowed, fails, stats)
     executed, outcomes = [], {}
     cache = _G.setdefault("fm_maps", {})
     mkey = skey(mdef)
@@ -792,7 +857,7 @@ def check(run: Run):
     run.cov["evaluations"] = run.cov["traces_validated_against_impl"]
     run.assumptions += [
         "a gapped sequence is abstracted to gap/residue per column; residue letters do not influence the maps",
-        "histories on one object: one derivation step (or a constructor) followed by a seeded sample of at most 150 (quick) / 200 (thorough) of the calls enabled on the derived map; longer derivation chains are covered only through the closedness of the string family",
+        "histories on one object: one derivation step (or a constructor) followed by a seeded sample of at most 100 (quick) / 200 (thorough) of the calls enabled on the derived map; longer derivation chains are covered only through the closedness of the string family",
         "IndelMap.get_coordinates(): zero-length segments (p, p) are ignored when comparing with the ungapped segments of the string",
         "slice bounds are within -len..len (beyond-length bounds are outside 'alignment interval'); get_align_index without slice_stop only for indices < parent_length as documented",
         "FeatureMap inputs are valid maps: spans of length >= 1 inside the parent; results are compared position by position (entry sequence), not by how spans are cut",
